@@ -1416,6 +1416,40 @@ def inline_view(crate, body, depth=3, keep=(), policy=None, max_blocks=1500):
         crate._cache[ck] = body
         return body
     nb = Body(crate, j)
+    # a helper steered by a flag / enum argument: the call site passes a constant, so the helper's dispatch on it is
+    # decided — replace those switches by the one feasible edge (the other arms become unreachable)
+    pruned = 0
+    for sb in nb.switch_blocks():
+        t = j["blocks"][sb]["term"]
+        r = nb.role_of_operand(t["discr"])
+        tgt = None
+        if r[0] == "discr":
+            inner = strip_role(r[1])
+            if isinstance(inner, tuple) and inner[0] == "agg" and isinstance(inner[1], str) and "::" in inner[1]:
+                apath, var = inner[1].rsplit("::", 1)
+                adt = crate.adts.get(apath)
+                if adt is not None and len(adt["variants"]) > 1:
+                    names = [v["name"] for v in adt["variants"]]
+                    if var in names:
+                        idx = str(names.index(var))
+                        hit = [c[1] for c in t["cases"] if c[0] == idx]
+                        tgt = hit[0] if hit else t["otherwise"]
+        elif r[0] == "const" and str(r[1]) in ("true", "false"):
+            val = "1" if r[1] == "true" else "0"
+            hit = [c[1] for c in t["cases"] if c[0] == val]
+            tgt = hit[0] if hit else t["otherwise"]
+        if tgt is not None:
+            j["blocks"][sb]["term"] = {"k": "goto", "target": tgt, "line": t.get("line"), "pruned_switch": True}
+            pruned += 1
+    if pruned:
+        nb = Body(crate, j)
+        live = nb.reach([0])
+        dead = [i for i in range(len(j["blocks"])) if i not in live and not j["blocks"][i]["cleanup"]]
+        if dead:
+            for i in dead:
+                j["blocks"][i] = dict(j["blocks"][i], cleanup=True, dead=True)      # rules skip cleanup blocks
+            nb = Body(crate, j)
+    nb.pruned = pruned
     nb.inlined = inlined
     nb.origin = body
     # closures: those of the root plus those of every inlined helper (parents stay as they are)
